@@ -523,6 +523,18 @@ def _statement_forms(fn: ast.AST) -> None:
                         bind = ast.Assign(targets=[ast.Name(id=w[0].target.id, ctx=ast.Store())], value=w[0].value)
                         st.test = _ReplaceNode(w[0], ast.Name(id=w[0].target.id, ctx=ast.Load())).visit(st.test)
                         new = [bind, st]
+            elif isinstance(st, ast.For) and isinstance(st.iter, ast.Call) and (call_name(st.iter) or '').split('.')[-1] in ('filter', 'filterfalse') \
+                    and len(st.iter.args) == 2 and not st.iter.keywords and isinstance(st.target, ast.Name) and not st.orelse \
+                    and (attr_chain(st.iter.args[0]) is not None or (isinstance(st.iter.args[0], ast.Lambda) and len(st.iter.args[0].args.args) == 1)):
+                # `for k in filter(pred, X): body`  ->  `for k in X: if pred(k): body`   (filterfalse: `if not pred(k)`)
+                pred = st.iter.args[0]
+                if isinstance(pred, ast.Lambda):
+                    test: ast.AST = _subst(pred.body, {pred.args.args[0].arg: ast.Name(id=st.target.id, ctx=ast.Load())})
+                else:
+                    test = ast.Call(func=pred, args=[ast.Name(id=st.target.id, ctx=ast.Load())], keywords=[])
+                if (call_name(st.iter) or '').endswith('filterfalse'):
+                    test = ast.UnaryOp(op=ast.Not(), operand=test)
+                new = [ast.For(target=st.target, iter=st.iter.args[1], body=[ast.If(test=test, body=st.body, orelse=[])], orelse=[])]
             elif isinstance(st, ast.AugAssign) and isinstance(st.op, ast.Add) and isinstance(st.value, ast.List) and len(st.value.elts) == 1 \
                     and not isinstance(st.value.elts[0], ast.Starred) and attr_chain(st.target) is not None:
                 recv = copy.deepcopy(st.target)
@@ -895,6 +907,7 @@ def _inlined(mod: Module, qn: str, keep: T.Iterable[str] = ()) -> ast.FunctionDe
     finally:
         _CLOSURES.clear()
         _LOCAL_TYPES.clear()
+    _statement_forms(fn2)       # statement normal forms again: the instantiated helper bodies may introduce `x = a if c else b` etc.
     return T.cast(ast.FunctionDef, fn2)
 
 
